@@ -35,6 +35,30 @@ Theorem c17_filed_where : forall cfg d acc m r st f,
 Proof. exact filed_where. Qed.
 Print Assumptions c17_filed_where.
 
+(** F. no twins: a message lands in a role store only if the RCPT address is,
+    byte for byte, the address of an enabled role mailbox; in a user store only
+    if the address splits at its single "@" into exactly that user name and
+    domain and is no role address ("_", "%" and letter case are ordinary bytes) *)
+Theorem c17_role_store_exact : forall cfg d acc m r e f,
+  In (r, D_ok (RoleStore e) f) (do_deliveries (handle_data cfg d acc m)) ->
+  e = r /\ In (mkRole r true) (roles d).
+Proof. exact role_store_exact. Qed.
+Print Assumptions c17_role_store_exact.
+
+Theorem c17_user_store_exact : forall cfg d acc m r n dom f,
+  In (r, D_ok (UserStore n dom) f) (do_deliveries (handle_data cfg d acc m)) ->
+  extract_parts r = Some (n, dom) /\ is_role d r = false.
+Proof. exact user_store_exact. Qed.
+Print Assumptions c17_user_store_exact.
+
+Example c17_like_twin_goes_to_its_own_store :
+  let d := mkDb [mkUser (S_ "support_team") (S_ "example.com") true] [mkRole (S_ "support-team@example.com") true] [] in
+  spec_target d (S_ "support_team@example.com") = Some (UserStore (S_ "support_team") (S_ "example.com")) /\
+  spec_target d (S_ "%@example.com") = Some (UserStore (S_ "%") (S_ "example.com")) /\
+  spec_target d (S_ "SUPPORT-TEAM@example.com") = Some (UserStore (S_ "SUPPORT-TEAM") (S_ "example.com")) /\
+  spec_target d (S_ "support-team@example.com") = Some (RoleStore (S_ "support-team@example.com")).
+Proof. vm_compute. auto. Qed.
+
 (** F. the 250/550 replies of DATA tell what each DeliverMessage call did, also
     when an address is given twice (results map keyed by address) *)
 Theorem c17_replies_truthful : forall cfg d acc m replies,
@@ -83,7 +107,7 @@ Print Assumptions c17_size_within.
 Theorem c17_size_over : forall cfg d acc m,
   max_size cfg < m_size m ->
   do_db (handle_data cfg d acc m) = d /\ do_deliveries (handle_data cfg d acc m) = [] /\
-  (do_reply (handle_data cfg d acc m) = DR554 \/ do_reply (handle_data cfg d acc m) = DR503).
+  (do_reply (handle_data cfg d acc m) = DR_refused 552 (length acc) \/ do_reply (handle_data cfg d acc m) = DR503).
 Proof. exact size_over. Qed.
 Print Assumptions c17_size_over.
 
